@@ -209,7 +209,9 @@ def check_property(pid, tier, seed, write_evidence=True):
     # ---- violations
     exit_code = 0
     os.makedirs(os.path.join(HERE, "replays"), exist_ok=True)
-    harness_found = (hres or {}).get("violations", [])
+    harness_found = list((hres or {}).get("violations", []))
+    # a failing input found on the real code by a bounded stand-in of this property is the replay of a refuted obligation
+    harness_found += [v for er in extra for v in er.get("violations", [])[:1]]
     for name, xs in refuted.items():
         x = xs[0]
         rp = os.path.join(HERE, "replays", f"{pid}-{safe(name)}.json")
@@ -225,9 +227,9 @@ def check_property(pid, tier, seed, write_evidence=True):
             lines.append(f"VIOLATION property={pid} replay={rp} obligation={name} no-failing-input-found")
         violations.append(name)
         exit_code = 1
-    if not refuted and harness_found:
+    if not refuted and (hres or {}).get("violations"):
         rp = os.path.join(HERE, "replays", f"{pid}-harness.json")
-        write_json(rp, dict(property=pid, obligation=None, failing_input=harness_found[0], repo=REPO, note="found by the bounded stand-in on the real code"))
+        write_json(rp, dict(property=pid, obligation=None, failing_input=hres["violations"][0], repo=REPO, note="found by the bounded stand-in on the real code"))
         lines.append(f"VIOLATION property={pid} replay={rp}")
         violations.append("harness")
         exit_code = 1
